@@ -85,14 +85,21 @@ class World:
     def live_links(self):
         return [l for l in self.links if not l.dead]
 
+    def conn_links(self, conn, kind):
+        """live links of connection (consumer, source index), oldest first (draining links of dead incarnations first)"""
+        return [l for l in self.links if not l.dead and l.kind == kind and l.conn == tuple(conn)]
+
     def enabled(self):
         acts = []
         for l in self.live_links():
-            if not l.established:
+            if l.kind == 'pushpull':             # the pipe exists from connect(); it delivers whenever the peer is up
+                if l.queue and not l.dst.closed:
+                    acts.append(('dreq', l))
+            elif not l.established:
                 if l.can_establish():
                     acts.append(('est', l))
             elif l.queue and not l.dst.closed:
-                acts.append(('dpub' if l.kind == 'pubsub' else 'dreq', l))
+                acts.append(('dpub', l))
         for n, t in self.tasks.items():
             a = t.enabled_action()
             if a:
@@ -106,8 +113,12 @@ class World:
             x.established = True
         elif kind in ('dpub', 'dreq'):
             x.dst.inbox.append(x.queue.pop(0))
+            if x.draining and not x.queue:
+                x.dead = True
         elif kind == 'drop':
             x.queue.pop(0)
+            if x.draining and not x.queue:
+                x.dead = True
         elif kind == 'run':
             x.resume()
         elif kind == 'timeout':
@@ -232,7 +243,9 @@ class Link:
         self.queue = []
         self.established = kind == 'pushpull' and not dst.closed  # a PUSH pipe exists from connect(); PUB needs 'est'
         self.dead = False
+        self.draining = False
         self.id = len(world.links)
+        self.conn = (dst.owner, dst.conn_idx) if kind == 'pubsub' else (src.owner, src.conn_idx)
         world.links.append(self)
 
     def can_establish(self):
@@ -267,7 +280,12 @@ class Socket:
         self.out_links = []
         t = world.cur
         self.owner = t.name if t else None
+        self.conn_idx = None
         if t is not None:
+            # ZMQReceiver.Sender creates, per source, an optional PUSH and then a SUB: number the sources
+            nsub = sum(1 for x in t.sockets if x.type == SUB)
+            if typ in (SUB, PUSH):
+                self.conn_idx = nsub + 1
             t.sockets.append(self)
 
     def __hash__(self):
@@ -317,10 +335,10 @@ class Socket:
             peer.out_links.append(l)
             self.in_link = l
         elif self.type == PUSH and peer.type == PULL:
-            if self.out_links:                   # pipe survives a peer restart: re-point it, needs 'est' again
+            if self.out_links:                   # pipe survives a peer restart: re-point it
                 l = self.out_links[-1]
                 l.dst = peer
-                l.established = False
+                l.established = True
             else:
                 l = Link(w, self, peer, 'pushpull')
                 self.out_links.append(l)
@@ -342,11 +360,15 @@ class Socket:
                     l.draining = True           # publisher gone: what is in flight may still arrive
             elif l.kind == 'pushpull':
                 if l.src is self:
-                    l.dead = True
+                    if keep_inflight and l.queue and not l.dst.closed:
+                        l.draining = True       # requests already handed to the network may still arrive
+                    else:
+                        l.dead = True
                 elif l.dst is self:
-                    if not keep_inflight:
-                        l.queue.clear()
-                    l.established = False       # pipe stays with the PUSH side, waits for a new peer
+                    if l.draining:
+                        l.queue.clear()         # in flight from a dead consumer to a dead publisher: lost
+                        l.dead = True
+                    l.established = False       # pipe (and what it holds) stays with the PUSH side, waits for a new peer
 
     def close(self, linger=None):
         if self.closed:
@@ -377,7 +399,7 @@ class Socket:
         if self.type == PUB:
             w.emit('pub', self.owner, self.addr, parts)
             for l in self.out_links:
-                if l.dead or not l.established or l.dst.closed or getattr(l, 'draining', False):
+                if l.dead or not l.established or l.dst.closed or l.draining:
                     continue
                 if not any(parts[0].startswith(s) for s in l.dst.subs):
                     continue
